@@ -616,8 +616,13 @@ func reduceOr(a b6.Expression, b b6.Expression) b6.Expression {
 	}
 }
 
-func ParseExpression(expression string) (b6.Expression, error) {
+func init() {
+	// Set once: the parser is used from concurrent requests, and assigning
+	// this package-level variable on every call is a data race.
 	yyErrorVerbose = true
+}
+
+func ParseExpression(expression string) (b6.Expression, error) {
 	l := lexer{Expression: expression}
 	yyParse(&l)
 	if l.Top.AnyExpression == nil {
@@ -627,7 +632,6 @@ func ParseExpression(expression string) (b6.Expression, error) {
 }
 
 func ParseExpressionWithLHS(expression string, lhs b6.Expression) (b6.Expression, error) {
-	yyErrorVerbose = true
 	l := lexer{Expression: expression, LHS: lhs}
 	yyParse(&l)
 	if l.Top.AnyExpression == nil {
